@@ -169,6 +169,11 @@ _ext("C13", "key order of Signature.less: stacks before flags")
 _ext("C17", "no package-level state written by the rendering helpers (points-to)")
 _ext("C18", "all-frames rule on the file list; components of a path are built from runes or substrings")
 _ext("C19", "nil-test dominance for optional syntax-tree pointers")
+# sweep wave 3 additions
+_ext("C08", "order rule: the index of the last goroutine is taken after the append of the same path")
+_ext("C16", "loop-exit rule on both writers (left early only by a failed write); all-paths dispatch of processInner (race/buckets, console/HTML); the frame measured for the widths is the loop's frame")
+_ext("C18", "loop-exit rule on the file loop of findRoots; the remote GOPATH is mapped to the probed local root")
+_ext("C19", "loop-exit rule on the frame loop of augmentGoroutine; search positions cut the text they were found in")
 for k in list(CLAIMED): NA.pop(k, None)
 try:
     exec(open(os.path.join(V, "tools", "manifest_table.py")).read())
